@@ -23,6 +23,7 @@ FLOORS = {"C15.R1": 3, "C15.R2": 4, "C15.R3": 14, "C15.R4": 1, "C15.R5": 9}
 
 def run(ctx):
     r1_r2(ctx)
+    _no_untracked_timers(ctx)
     r3(ctx)
     r4(ctx)
     r5(ctx)
@@ -105,6 +106,15 @@ def r1_r2(ctx):
     tt = op.tests(lambda e: dotted(e) == "self.is_open")
     ok = bool(sch) and bool(sets) and bool(tt) and all(op.cfg.dominates(op.branch(t, "false").id, n.id) for t in tt for n in sch + sets) and not any(op.awaits_between(a, b) for a in sch for b in sets) and not any(op.awaits_between(b, a) for a in sch for b in sets)
     ctx.check(ok, R2, "open_socket:schedule-and-mark-open-atomically", m, op.node, "under `not is_open`: _schedule(_connect()) and is_open = True without an await in between (the scheduled task must see an open socket)", "not atomic or not guarded")
+
+
+def _no_untracked_timers(ctx):
+    """Everything that acts later is a task the owner can cancel: no loop.call_later/call_at/call_soon timers and no
+    asyncio.ensure_future in the client (close()/stop()/shutdown() cancel tasks, they cannot cancel bare timer handles)."""
+    R = "C15.R2"
+    bad = package_calls(ctx.repo, lambda d: d.split(".")[-1] in ("call_later", "call_at", "call_soon", "call_soon_threadsafe", "ensure_future"))
+    bad = [(m, q, c) for m, q, c in bad if m.name in (SOCKET, HEARTBEAT, AT4_API, AT5_API, "pyairtouch.api")]
+    ctx.check(not bad, R, "client:no-untracked-timers", ctx.repo.module(SOCKET), (bad[0][2] if bad else None), "deferred actions are tasks tracked by their owner (cancellable on close), never bare loop timers", "; ".join(f"{m.relpath}:{q}: {norm_text(c)[:60]}" for m, q, c in bad))
 
 
 def _stored_tasks(ctx, modname, clsname):
